@@ -107,7 +107,7 @@ class CrawlServer:
             return _H(self, conn, origin)
         return accept
 
-    def serve(self, conn, origin, raw, ctx):
+    def serve(self, conn, origin, raw, ctx, body=b''):
         h = self.h
         line = raw.split(b'\r\n', 1)[0].decode('latin-1')
         parts = line.split(' ')
@@ -126,6 +126,8 @@ class CrawlServer:
                    'item_start': getattr(ctx, '_verif_start', None), 'item_run': getattr(ctx, '_verif_run', None)}
         entry = {'t': h.loop.time(), 'origin': origin.key(), 'target': target, 'url': url, 'method': method, 'rec': rec,
                  'conn': conn.id, 'fields': fields, 'n': len(self.log)}
+        if body:
+            entry['body'] = body
         self.log.append(entry)
         h.r.events.append(('req', url))
         if h.on_request is not None:
@@ -175,12 +177,23 @@ class _H:
         self.srv = srv
         self.origin = origin
         self.buf = b''
+        self.pending = None
 
     def on_data(self, conn, data):
         self.buf += data
-        while b'\r\n\r\n' in self.buf:
-            raw, self.buf = self.buf.split(b'\r\n\r\n', 1)
-            self.srv.serve(conn, self.origin, raw, self.srv.net.current_ctx)
+        while True:
+            if self.pending is None:
+                if b'\r\n\r\n' not in self.buf:
+                    return
+                raw, self.buf = self.buf.split(b'\r\n\r\n', 1)
+                m = re.search(br'(?im)^content-length:[ \t]*(\d+)[ \t]*\r?$', raw)
+                self.pending = (raw, int(m.group(1)) if m else 0, self.srv.net.current_ctx)
+            raw, need, ctx = self.pending
+            if len(self.buf) < need:
+                return                                  # (the request body, --post-data, is still arriving)
+            body, self.buf = self.buf[:need], self.buf[need:]
+            self.pending = None
+            self.srv.serve(conn, self.origin, raw, ctx, body)
 
     def on_eof(self, conn):
         conn.finish()
